@@ -101,8 +101,8 @@ def vstr(v, d=0):
         return "%s(%s)" % (v[2], ", ".join(vstr(x, d + 1) for x in v[3]))
     if k == "tuple":
         return "(%s)" % ", ".join(vstr(x, d + 1) for x in v[1])
-    if k == "array":
-        return "[%s]" % ", ".join(vstr(x, d + 1) for x in v[1])
+    if k in ("array", "vec"):
+        return "%s[%s]" % ("vec!" if k == "vec" else "", ", ".join(vstr(x, d + 1) for x in v[1]))
     if k == "upd":
         return "%s{%s:=%s}" % (vstr(v[1], d + 1), ".".join(str(st[1]) for st in v[2]), vstr(v[3], d + 1))
     if k == "ref":
